@@ -213,7 +213,8 @@ def judge(case, ir, mr):
         if got != mr['impl']:
             return {'verdict': Verdict.CORR, 'tags': tags, 'detail': 'model and code split differently: ' + det}
         return {'verdict': Verdict.OK, 'nontrivial': "'" in case['text'] and ',' in case['text'], 'tags': tags, 'detail': det[:300]}
-    bad, actual, det = LB.base_judge(case, ir, mr, tags)
+    mr, mt = LB.split(mr)
+    bad, actual, det = LB.base_judge(case, ir, mr, tags, mt)
     if bad:
         return bad
     return {'verdict': Verdict.OK, 'nontrivial': actual is not None and bool(case['flags']), 'tags': tags, 'detail': det[:300]}
